@@ -6,4 +6,5 @@ let lookup (p : string) : Model.val0 -> Model.val0 =
   | "C08" -> Model.run_C08
   | "C13" -> Model.run_C13
   | "C20" -> Model.run_C20
+  | "C11" -> Model.run_C11
   | _ -> failwith ("unknown property " ^ p)
